@@ -60,17 +60,59 @@ var errInconclusive = fmt.Errorf("inconclusive")
 
 type consSvc struct{ n *cnode }
 
+// fault injection (suite fault): the next forwarded requests this node receives are answered as its plan says,
+// 'f' = fail without executing, 'l' = execute, then report a failure (the answer is lost).
+var errInjected = fmt.Errorf("injected: forwarded request failed")
+
+// gate returns what to do with a forwarded request: 0 pass, 'f' fail before, 'l' fail after executing.
+func (s *consSvc) gate(ctx context.Context) byte {
+	f := s.n.faults
+	if f == nil {
+		return 0
+	}
+	f.mu.Lock()
+	defer f.mu.Unlock()
+	if from, err := rpc.GetRequestSender(ctx); err != nil || from != f.caller {
+		return 0 // a forward on behalf of somebody else (a deposed leader passing the request on)
+	}
+	k := f.fwdSeen
+	f.fwdSeen++
+	if k < len(f.plan) {
+		return f.plan[k]
+	}
+	return 0
+}
+
+// faults: the plan applies to whoever leads (forwards are counted wherever they arrive).
+type faults struct {
+	mu      sync.Mutex
+	plan    string
+	caller  peer.ID // only this peer's forwards are counted and faulted
+	fwdSeen int
+}
+
+func (s *consSvc) run(ctx context.Context, f func() error) error {
+	switch s.gate(ctx) {
+	case 'f':
+		return errInjected
+	case 'l':
+		f()
+		return errInjected
+	}
+	return f()
+}
+
 func (s *consSvc) LogPin(ctx context.Context, in *api.Pin, out *struct{}) error {
-	return s.n.cc.LogPin(ctx, in)
+	return s.run(ctx, func() error { return s.n.cc.LogPin(ctx, in) })
 }
 func (s *consSvc) LogUnpin(ctx context.Context, in *api.Pin, out *struct{}) error {
-	return s.n.cc.LogUnpin(ctx, in)
+	return s.run(ctx, func() error { return s.n.cc.LogUnpin(ctx, in) })
 }
 func (s *consSvc) AddPeer(ctx context.Context, in peer.ID, out *struct{}) error {
-	return s.n.cc.AddPeer(ctx, in)
+	return s.run(ctx, func() error { return s.n.cc.AddPeer(ctx, in) })
 }
 func (s *consSvc) RmPeer(ctx context.Context, in peer.ID, out *struct{}) error {
-	return s.n.cc.RmPeer(ctx, in)
+	return s.run(ctx, func() error { return s.n.cc.RmPeer(ctx, in) })
 }
 
 type trackerSvc struct{}
@@ -88,6 +130,8 @@ type cnode struct {
 	up     bool
 	ready  chan string   // what the peer looked like at the instant Ready() fired: "<lvs>@<pinset>"
 	stop   chan struct{} // closed when the instance is shut down
+
+	faults *faults // shared by the peers of a world (suite fault)
 }
 
 type cworld struct {
@@ -96,6 +140,7 @@ type cworld struct {
 	slash       bool
 	dir         string
 	slowCatchUp bool // one entry per AppendEntries: a joiner needs many round trips to catch up
+	fast        bool // suites fault / conc: short heartbeat (a failed forward sleeps 2 heartbeats)
 	retries     int
 	nodes       []*cnode
 	byID        map[peer.ID]int
@@ -136,6 +181,12 @@ func (w *cworld) raftCfg(n *cnode, init []int) *raft.Config {
 	cfg.RaftConfig.ElectionTimeout = 1000 * time.Millisecond
 	cfg.RaftConfig.LeaderLeaseTimeout = 500 * time.Millisecond
 	cfg.RaftConfig.CommitTimeout = 50 * time.Millisecond
+	if w.fast {
+		cfg.RaftConfig.HeartbeatTimeout = 400 * time.Millisecond
+		cfg.RaftConfig.ElectionTimeout = 400 * time.Millisecond
+		cfg.RaftConfig.LeaderLeaseTimeout = 300 * time.Millisecond
+		cfg.RaftConfig.CommitTimeout = 20 * time.Millisecond
+	}
 	if w.slowCatchUp {
 		cfg.RaftConfig.MaxAppendEntries = 1
 	}
@@ -1089,6 +1140,12 @@ func main() {
 				}
 				continue
 			}
+			if strings.HasPrefix(hd, "f") {
+				if suite == "fault" {
+					runFaultScript(out, &mu, scratch, fmt.Sprintf("in%d", k), s)
+				}
+				continue
+			}
 			if suite == "consensus" {
 				runConsScript(out, &mu, scratch, fmt.Sprintf("in%d", k), s)
 			}
@@ -1120,6 +1177,8 @@ func main() {
 			if suite == "cluster" {
 				s, repin := genClusterScript(r, a.Tier)
 				runClusterScript(out, &mu, scratch, fmt.Sprintf("s%d", k), s, repin)
+			} else if suite == "fault" {
+				runFaultScript(out, &mu, scratch, fmt.Sprintf("s%d", k), genFaultScript(r, k, a.Tier))
 			} else {
 				runConsScript(out, &mu, scratch, fmt.Sprintf("s%d", k), genConsScript(r, a.Tier))
 			}
